@@ -1,6 +1,7 @@
 import SpoxModel.Lemmas.VPHistory
 import SpoxModel.Props.C15
 import SpoxModel.Generated.VPOverrides
+import SpoxModel.Generated.VPSampling
 /-!
 # C07 - propagated constant values equal what the model computes
 
@@ -149,9 +150,9 @@ theorem step_inv (st st' : State) (s : Step) (hinv : Inv st) (h : step Variant.f
           obtain ⟨ow, how, rfl⟩ := ho
           have hall := attached_inputs_valued _ _ _ _ _ hres (mkCtx_fresh _ _ _ _ _) ⟨ow, how, hv⟩
           intro i hi
-          obtain ⟨oi, h1, h2⟩ := inputs_valued_of_ctx st inputs inNames outs hasSub hlen hex hall i hi
+          obtain ⟨oi, h1, h2⟩ := inputs_valued_of_ctx st inputs inNames outs hasSub.skips hlen hex hall i hi
           exact ⟨by rw [hidx]; exact var?_some_lt st i oi h1, oi, var?_append st _ i oi h1, h2⟩
-  | inline sel inputs inNames gnames outs b sem =>
+  | inline sel inputs inNames gnames outs traits b sem =>
     simp only [step] at h
     split at h
     · cases h
@@ -174,7 +175,7 @@ theorem step_inv (st st' : State) (s : Step) (hinv : Inv st) (h : step Variant.f
           obtain ⟨ow, how, rfl⟩ := ho
           have hall := attached_inputs_valued _ _ _ _ _ hres (mkCtx_fresh _ _ _ _ _) ⟨ow, how, hv⟩
           intro i hi
-          obtain ⟨oi, h1, h2⟩ := inputs_valued_of_ctx st inputs inNames outs false hlen hex hall i hi
+          obtain ⟨oi, h1, h2⟩ := inputs_valued_of_ctx st inputs inNames outs traits.skips hlen hex hall i hi
           exact ⟨by rw [hidx]; exact var?_some_lt st i oi h1, oi, var?_append st _ i oi h1, h2⟩
 
 theorem reachable_inv (st : State) (h : Reachable Variant.fixed st) : Inv st := by
@@ -367,7 +368,7 @@ theorem step_snoc (v : Variant) (st st' : State) (s : Step) (h : step v st s = .
     · split at h
       · cases h
       · simp only [Except.ok.injEq] at h; exact ⟨_, h.symm⟩
-  | inline sel inputs inNames gnames outs b sem =>
+  | inline sel inputs inNames gnames outs traits b sem =>
     simp only [step] at h
     split at h
     · cases h
@@ -493,6 +494,124 @@ theorem fold_binding_independent (b1 b2 : Nat → Payload) (st : State)
     denote b1 st r = denote b2 st r := by
   rw [fold_correct b1 st h hf r o pv ho hv, fold_correct b2 st h hf r o pv ho hv]
 
+
+/-! ### the guards: nodes that do not propagate (sampling operators, subgraph carriers, inlined control flow, NONE) -/
+
+/-- `merge` with no backend values attaches nothing to fresh outputs. -/
+theorem merge_nil_valueless (outs : List OutVar) (hfresh : ∀ o ∈ outs, o.value = none) :
+    ∀ p ∈ merge Variant.fixed [] outs, p.1.value = none := by
+  intro p hp
+  simp only [merge, List.mem_map] at hp
+  obtain ⟨o, ho, rfl⟩ := hp
+  have : mergeOne Variant.fixed [] o = (o, false) := by
+    unfold mergeOne
+    cases o.type <;> cases o.value <;> simp [dictGet]
+  rw [this]; exact hfresh o ho
+
+/-- A node that does not propagate (`propagates sel t = false`: backend NONE, a sampling operator, a
+    subgraph-carrying operator, an inlined model with control flow) hands `Node.inference` the empty
+    dict - whatever its inputs carry and whatever the backend would have done (it is not consulted). -/
+theorem guarded_propagates_nothing (sel : BackendSel) (k : Kind) (ctx : NodeCtx) (t : Traits) (b : Backend)
+    (hctx : ctx.hasSubgraph = t.skips) (hp : propagates sel t = false) :
+    propagate Variant.fixed sel ctx b k = .ok [] := by
+  cases k with
+  | standard =>
+    cases sel with
+    | none => rfl
+    | reference =>
+      have hs : ctx.hasSubgraph = true := by rw [hctx]; simpa [propagates] using hp
+      by_cases h1 : (ctx.inputs.any fun i => i.type.isNone || !i.hasValue) = true
+      · simp [propagate, propagateStd, propagateOnnx, h1]
+      · simp [propagate, propagateStd, propagateOnnx, h1, hs]
+    | onnxruntime =>
+      have hs : ctx.hasSubgraph = true := by rw [hctx]; simpa [propagates] using hp
+      by_cases h1 : (ctx.inputs.any fun i => i.type.isNone || !i.hasValue) = true
+      · simp [propagate, propagateStd, propagateOnnx, h1]
+      · simp [propagate, propagateStd, propagateOnnx, h1, hs]
+  | inline g =>
+    by_cases h1 : (ctx.inputs.any fun i => i.type.isNone || !i.hasValue) = true
+    · simp [propagate, propagateInline, h1]
+    · cases sel with
+      | none => simp [propagate, propagateInline, h1, Variant.fixed]
+      | reference =>
+        have hs : ctx.hasSubgraph = true := by rw [hctx]; simpa [propagates] using hp
+        simp [propagate, propagateInline, h1, hs]
+      | onnxruntime =>
+        have hs : ctx.hasSubgraph = true := by rw [hctx]; simpa [propagates] using hp
+        simp [propagate, propagateInline, h1, hs]
+
+/-- **guarded_node_valueless.** Constructing a node that does not propagate succeeds and leaves every
+    output Var without a value: *a kept value is never one of a sampling / control-flow-carrying node*
+    (nor of any operator under backend NONE) - for every backend behaviour, incl. exceptions of any class. -/
+theorem guarded_node_valueless (sel : BackendSel) (k : Kind) (ctx : NodeCtx) (t : Traits) (b : Backend)
+    (hctx : ctx.hasSubgraph = t.skips) (hp : propagates sel t = false)
+    (hfresh : ∀ o ∈ ctx.outputs, o.value = none) :
+    ∃ res, construct Variant.fixed sel k ctx b = .ok res ∧ ∀ p ∈ res, p.1.value = none := by
+  refine ⟨merge Variant.fixed [] ctx.outputs, ?_, merge_nil_valueless _ hfresh⟩
+  simp [construct, guarded_propagates_nothing sel k ctx t b hctx hp]
+
+/-- History level, operators: the node appended by a `standard` step whose traits do not propagate
+    carries no value (and the step cannot raise for existing inputs). -/
+theorem guarded_standard_step_valueless (st st' : State) (sel : BackendSel) (inputs : List VarRef)
+    (inNames : List String) (outs : List (String × Option Ty)) (t : Traits) (b : Backend)
+    (sem : List Payload → String → Option Payload) (hp : propagates sel t = false)
+    (h : step Variant.fixed st (.standard sel inputs inNames outs t b sem) = .ok st') :
+    ∃ n, st' = st ++ [n] ∧ n.kind = .standard ∧ ∀ o ∈ n.outputs, o.value = none := by
+  simp only [step] at h
+  split at h
+  · cases h
+  · obtain ⟨res, hres, hval⟩ := guarded_node_valueless sel .standard
+      (mkCtx st inputs inNames outs t.skips) t b rfl hp (mkCtx_fresh _ _ _ _ _)
+    rw [hres] at h
+    simp only [Except.ok.injEq] at h
+    refine ⟨_, h.symm, rfl, ?_⟩
+    intro o ho
+    simp only [List.mem_map] at ho
+    obtain ⟨p, hp', rfl⟩ := ho
+    exact hval p hp'
+
+/-- History level, inlined models (control flow inside, or backend NONE). -/
+theorem guarded_inline_step_valueless (st st' : State) (sel : BackendSel) (inputs : List VarRef)
+    (inNames gnames : List String) (outs : List (String × Option Ty)) (t : Traits) (b : Backend)
+    (sem : List Payload → String → Option Payload) (hp : propagates sel t = false)
+    (h : step Variant.fixed st (.inline sel inputs inNames gnames outs t b sem) = .ok st') :
+    ∃ n, st' = st ++ [n] ∧ n.kind = .inline ∧ ∀ o ∈ n.outputs, o.value = none := by
+  simp only [step] at h
+  split at h
+  · cases h
+  · obtain ⟨res, hres, hval⟩ := guarded_node_valueless sel (.inline gnames)
+      (mkCtx st inputs inNames outs t.skips) t b rfl hp (mkCtx_fresh _ _ _ _ _)
+    rw [hres] at h
+    simp only [Except.ok.injEq] at h
+    refine ⟨_, h.symm, rfl, ?_⟩
+    intro o ho
+    simp only [List.mem_map] at ho
+    obtain ⟨p, hp', rfl⟩ := ho
+    exact hval p hp'
+
+/-- `fold_correct`'s hypothesis asks NOTHING of a node without values: for sampling operators (whose
+    run-time result is no function of their inputs - any `sem` whatsoever may stand for one run's draw)
+    and control-flow carriers the backend is never assumed to compute the run-time semantics. So
+    `fold_correct` holds with the hypothesis restricted to the nodes that propagate. -/
+theorem faithful_snoc_valueless (st : State) (n : NodeRec) (hF : Faithful st)
+    (hr : Reachable Variant.fixed st) (hn : ∀ o ∈ n.outputs, o.value = none) : Faithful (st ++ [n]) := by
+  intro idx m hm hk o ho pv hpv
+  rcases getElem?_snoc st _ idx m hm with h1 | ⟨_, rfl⟩
+  · have := hF idx m h1 hk o ho pv hpv
+    have hlt : ∀ i ∈ m.inputs, i.node < st.length := by
+      intro i hi
+      have hinv := reachable_inv st hr idx m h1
+      have hidx : idx < st.length := by
+        rcases Nat.lt_or_ge idx st.length with h | h
+        · exact h
+        · simp [List.getElem?_eq_none h] at h1
+      have := hinv.2.1 ⟨o, ho, by simp [hpv]⟩
+      exact Nat.lt_trans (this.2 i hi).1 hidx
+    rw [show m.inputs.map (payloadOf (st ++ [n])) = m.inputs.map (payloadOf st) from
+      List.map_congr_left fun i hi => by simp [payloadOf, var?_append_lt st n i (hlt i hi)]]
+    exact this
+  · rw [hn o ho] at hpv; cases hpv
+
 /-! ### the sources of propagated values are exactly the modelled ones (tie G) -/
 
 /-- The `propagate_values` implementations the history model covers: `Node`'s default (nothing),
@@ -513,12 +632,24 @@ def modelledOverride : String × String × String → Bool
 theorem generated_overrides_modelled :
     Generated.VPOverrides.overrides.all modelledOverride = true := by decide
 
+
+/-- **generated_sampling_guarded** (tie G). On the source tree and the onnx installation of this run:
+    every sampling operator schema (a `seed` attribute or a sampling name, any domain, any version) is a
+    default-domain operator listed in `_NON_DETERMINISTIC_OPS`; nothing else is listed (a deterministic
+    operator would silently lose propagation); `propagate_values_onnx` consults the set and returns `{}`
+    before the backend is obtained; `_Inline.propagate_values` tests for subgraph attributes before the
+    backend is obtained. These are the facts the harness reports as `Traits` to the model. -/
+theorem generated_sampling_guarded :
+    (Generated.VPSampling.sampling.all fun p => p.1 == "" && Generated.VPSampling.listed.contains p.2) = true ∧
+    (Generated.VPSampling.listed.all fun n => Generated.VPSampling.sampling.contains ("", n)) = true ∧
+    Generated.VPSampling.guardCalled = true ∧ Generated.VPSampling.inlineGuard = true := by decide
+
 /-! ### the pinned tree -/
 
 /-- Pinned: a Sequence-typed Var ends up with a value that does not conform to its type. -/
 theorem kept_value_conforms_counterexample :
     ∃ st pv, step Variant.pinned []
-        (.standard .reference [] [] [("output", some (.seq C15.tI64x2))] false
+        (.standard .reference [] [] [("output", some (.seq C15.tI64x2))] Traits.plain
           (.ret ["output"] [C15.seqBad]) (fun _ _ => none)) = .ok st ∧
       (st.var? ⟨0, 0⟩).bind (·.value) = some pv ∧ ¬ conforms pv.type pv.value := by
   refine ⟨_, _, rfl, rfl, ?_⟩
@@ -530,9 +661,9 @@ theorem kept_value_conforms_counterexample :
 def demo : List Step :=
   [ .constant "output" (some (.tensor .i64 (some [.const 2]))) (.arr .i64 [2] 1),
     .argument "arg" (.tensor .i64 (some [.const 2])),
-    .standard .reference [⟨0, 0⟩, ⟨0, 0⟩] ["A", "B"] [("C", some (.tensor .i64 (some [.const 2])))] false
+    .standard .reference [⟨0, 0⟩, ⟨0, 0⟩] ["A", "B"] [("C", some (.tensor .i64 (some [.const 2])))] Traits.plain
       (.ret ["C"] [.arr .i64 [2] 2]) (fun _ _ => some (.arr .i64 [2] 2)),
-    .standard .reference [⟨2, 0⟩, ⟨1, 0⟩] ["A", "B"] [("C", some (.tensor .i64 (some [.const 2])))] false
+    .standard .reference [⟨2, 0⟩, ⟨1, 0⟩] ["A", "B"] [("C", some (.tensor .i64 (some [.const 2])))] Traits.plain
       (.ret ["C"] [.arr .i64 [2] 3]) (fun _ _ => some (.arr .i64 [2] 3)) ]
 
 /-- constant and add(const, const) get values; the argument and add(·, argument) do not -
@@ -548,5 +679,25 @@ def pidOf : Option Payload → Option Nat
     argument-dependent add follows the binding's meaning (here `sem` ignores it). -/
 example : pidOf (denote (fun _ => .arr .i64 [2] 9) (run Variant.fixed [] demo) ⟨2, 0⟩) = some 2 ∧
     pidOf (denote (fun _ => .arr .i64 [2] 9) (run Variant.fixed [] demo) ⟨1, 0⟩) = some 9 := by decide
+
+/-- Non-vacuity of the guards: the same constant-fed operator with the same (result-returning) backend
+    attaches a value when it propagates and none when it is a sampling operator, a subgraph carrier, or
+    the backend is NONE; an inlined model with control flow attaches none either. -/
+def guardDemo (sel : BackendSel) (t : Traits) : List Step :=
+  [ .constant "output" (some (.tensor .i64 (some [.const 2]))) (.arr .i64 [2] 1),
+    .standard sel [⟨0, 0⟩] ["X"] [("Y", some (.tensor .i64 (some [.const 2])))] t
+      (.ret ["Y"] [.arr .i64 [2] 2]) (fun _ _ => some (.arr .i64 [2] 2)),
+    .inline sel [⟨0, 0⟩] ["x"] ["y"] [("outputs_0", some (.tensor .i64 (some [.const 2])))] t
+      (.ret ["y"] [.arr .i64 [2] 3]) (fun _ _ => some (.arr .i64 [2] 3)) ]
+
+def valuedMap (st : State) : List (List Bool) := st.map fun n => n.outputs.map (·.value.isSome)
+
+example : valuedMap (run Variant.fixed [] (guardDemo .reference Traits.plain)) = [[true], [true], [true]] := by decide
+example : valuedMap (run Variant.fixed [] (guardDemo .reference ⟨true, false, false⟩)) = [[true], [false], [false]] := by decide
+example : valuedMap (run Variant.fixed [] (guardDemo .onnxruntime ⟨false, true, false⟩)) = [[true], [false], [false]] := by decide
+example : valuedMap (run Variant.fixed [] (guardDemo .onnxruntime ⟨false, false, true⟩)) = [[true], [false], [false]] := by decide
+example : valuedMap (run Variant.fixed [] (guardDemo .none Traits.plain)) = [[true], [false], [false]] := by decide
+example : propagates .reference Traits.plain = true ∧ propagates .none Traits.plain = false ∧
+    propagates .onnxruntime ⟨true, false, false⟩ = false := by decide
 
 end C07
